@@ -53,7 +53,7 @@ PROFILES = {
     "C08": ("buffers", "race", "full", "buffers", "dep", "wide", "race", "multibuf", "fullstart", "stale"),
     "C09": ("full", "stoch", "full", "mixed", "wide"),
     "C10": ("full", "stoch", "full", "full", "wide", "outs"),
-    "C11": ("transport", "buffers", "full", "race", "wide", "multibuf", "dep", "outstart"),
+    "C11": ("transport", "buffers", "full", "race", "wide", "multibuf", "dep", "outstart", "buried"),
     "C12": ("mixed", "full", "transport", "stoch", "wide", "outs"),
     "C20": ("dep", "mixed", "dep", "transport", "race", "dep", "outs", "multibuf", "full", "dep", "buffers"),
 }
@@ -401,6 +401,8 @@ def sm_check(ctx, n_quick=160, n_thorough=6000, custom_p=0.15, extra=None, worke
     # corpus seeds first (cases that once disagreed or violated)
     corpus = ctx.verif / "corpus" / (prop + ".json")
     profiles = tuple(extra.pop("profiles", None) or PROFILES.get(prop, ("mixed",)))
+    if os.environ.get("VERIF_PROFILES"):     # directed runs by hand: one generator profile only
+        profiles = tuple(os.environ["VERIF_PROFILES"].split(","))
     if extra.get("all_workers"):
         w = min(16, ncpu)
         per = max(1, n // w)
